@@ -1183,4 +1183,396 @@ theorem delivered_view {α} (l : List (Eff α)) : delivered (view l) = delivered
   | nil => rfl
   | cons e l ih => cases e <;> simp_all [delivered, view, List.filter, Eff.common]
 
+
+set_option linter.unusedSimpArgs false
+
+
+/-! ## per-callback order for the operators that return the source subscription -/
+
+theorem rDispose_plain {α} (c : Cfg) (hp : Plain c) (s : St α) : rDispose c s = uSubDispose s := by
+  rcases hp with h | h | h | h | h <;> simp [rDispose, h]
+
+@[simp] theorem filter_isCb_srcIf {α} (b : Bool) : (srcIf b : List (Eff α)).filter Eff.isCb = [] := by
+  cases b <;> simp [srcIf, Eff.isCb]
+@[simp] theorem filter_isEmit_srcIf {α} (b : Bool) : (srcIf b : List (Eff α)).filter Eff.isEmit = [] := by
+  cases b <;> simp [srcIf]
+
+/-- the pipeline is running: nobody is stopped, nothing disposed; `a` = `R` has been handed to `D` -/
+structure Live {α} (a : Bool) (s : St α) : Prop where
+  us : s.u.stopped = false
+  ds : s.d.stopped = false
+  sad : s.d.sad = false
+  cur : s.d.cur = a
+  sub : s.u.subDisposed = false
+  usad : s.u.sad = false
+
+/-- both observers are stopped: nothing is delivered and no callback runs any more -/
+structure Dead {α} (s : St α) : Prop where
+  us : s.u.stopped = true
+  ds : s.d.stopped = true
+
+structure Good {α} (c : Cfg) (s : St α) (k : Nat) : Prop where
+  shp : cbShape c s.log
+  cnt : actCount .subscribe s.log = k
+  hd : k = 1 → s.log.head? = some (.act .subscribe none false)
+
+theorem good_append {α} (c : Cfg) (s s' : St α) (k : Nat) (x : List (Eff α)) (h : Good c s k)
+    (hlog : s'.log = s.log ++ x)
+    (hx : x.filter Eff.isCb = (x.filter Eff.isEmit).flatMap (expect c)) (hc : actCount .subscribe x = 0) :
+    Good c s' k := by
+  obtain ⟨shp, cnt, hd⟩ := h
+  refine ⟨?_, by simp [hlog, cnt, hc], ?_⟩
+  · simp only [cbShape] at shp ⊢
+    simp [hlog, shp, hx]
+  · intro hk
+    have := hd hk
+    rw [hlog]
+    cases hl : s.log with
+    | nil => rw [hl] at this; cases this
+    | cons e l => rw [hl] at this; simpa using this
+
+theorem notify_dead {α} (c : Cfg) (n : Notif α) (s : St α) (h : Dead s) : uNotify c n s = (s, none) := by
+  simp [uNotify, h.us]
+
+/-- `(Live a ∨ Dead) ∧ Good` — what every step of a `Plain` operator preserves -/
+def Ok {α} (c : Cfg) (a : Bool) (k : Nat) (s : St α) : Prop := (Live a s ∨ Dead s) ∧ Good c s k
+
+macro "plain_step" : tactic => `(tactic|
+  (first
+    | (refine ⟨Or.inl ⟨by simp_all, by simp_all, by simp_all, by simp_all, by simp_all, by simp_all⟩, ?_⟩)
+    | (refine ⟨Or.inr ⟨by simp_all [uDisp], by simp_all⟩, ?_⟩)))
+
+/-- a terminal notification that passed `U`'s `is_stopped` test, up to (not including) `U`'s own `finally: dispose()` -/
+def termStep {α} (c : Cfg) (t : Notif α) (s : St α) : St α × Option Err := hTerminal c t { s with u.stopped := true }
+
+theorem next_live {α} (c : Cfg) (hp : Plain c) (q : Quiet c)
+    (a : Bool) (k : Nat) (s : St α) (v : α) (hl : Live a s) (hg : Good c s k) :
+    Live a (hNext c v s).1 ∧ Good c (hNext c v s).1 k := by
+  obtain ⟨us, ds, sad, cur, sub, usad⟩ := hl
+  have hnr := q.nr
+  rcases hp with hop | hop | hop | hop | hop
+  · cases hr : c.subRaises s.d.cbs <;> cases hh : c.hasNext <;>
+    (simp [hNext, dNext, userCb, tryCatch, seq, action, hnr, hop, ds, hr, hh]
+     refine ⟨⟨by simp_all, by simp_all, by simp_all, by simp_all, by simp_all, by simp_all⟩,
+         good_append c s _ k _ hg rfl (by simp [List.filter, Eff.isCb, Eff.isEmit, expect, hop, hh]) (by simp)⟩)
+  · have hsr := q.an hop
+    simp [hNext, dNext, userCb, tryCatch, seq, action, hnr, hsr, hop, ds]
+    refine ⟨⟨by simp_all, by simp_all, by simp_all, by simp_all, by simp_all, by simp_all⟩,
+         good_append c s _ k _ hg rfl (by simp [List.filter, Eff.isCb, Eff.isEmit, expect, hop]) (by simp)⟩
+  all_goals
+    (cases hr : c.subRaises s.d.cbs <;>
+     (simp [hNext, dNext, userCb, hop, ds, hr]
+      refine ⟨⟨by simp_all, by simp_all, by simp_all, by simp_all, by simp_all, by simp_all⟩,
+         good_append c s _ k _ hg rfl (by simp [List.filter, Eff.isCb, Eff.isEmit, expect, hop]) (by simp)⟩))
+
+theorem term_live {α} (c : Cfg) (hp : Plain c) (q : Quiet c)
+    (a : Bool) (k : Nat) (s : St α) (t : Notif α) (ht : t.isTerminal = true) (hl : Live a s) (hg : Good c s k) :
+    Dead (termStep c t s).1 ∧ Good c (termStep c t s).1 k := by
+  obtain ⟨us, ds, sad, cur, sub, usad⟩ := hl
+  have hnr := q.nr
+  have hp' := hp
+  cases t with
+  | next v => cases ht
+  | error e =>
+    rcases hp with hop | hop | hop | hop | hop
+    · cases a <;> cases hr : c.subRaises s.d.cbs <;> cases hh : c.hasError <;>
+      (simp [termStep, hTerminal, hError, dTerminal, dDispose, rDispose_plain c hp', uSubDispose_eq,
+         userCb, tryCatch, tryFinally, seq, action, hnr, hop, ds, sad, cur, hr, hh]
+       refine ⟨⟨by simp [uDisp, uSubDisp, sub], by simp⟩,
+         good_append c s _ k _ hg (by simp; rfl) (by simp [List.filter, Eff.isCb, Eff.isEmit, expect, hop, hh]) (by simp)⟩)
+    all_goals
+      (cases a <;> cases hr : c.subRaises s.d.cbs <;>
+       (simp [termStep, hTerminal, hError, dTerminal, dDispose, rDispose_plain c hp', uSubDispose_eq,
+         userCb, tryCatch, tryFinally, seq, action, hnr, hop, ds, sad, cur, hr]
+        refine ⟨⟨by simp [uDisp, uSubDisp, sub], by simp⟩,
+         good_append c s _ k _ hg (by simp; rfl) (by simp [List.filter, Eff.isCb, Eff.isEmit, expect, hop]) (by simp)⟩))
+  | completed =>
+    rcases hp with hop | hop | hop | hop | hop
+    · cases a <;> cases hr : c.subRaises s.d.cbs <;> cases hh : c.hasCompleted <;>
+      (simp [termStep, hTerminal, hCompleted, dTerminal, dDispose, rDispose_plain c hp', uSubDispose_eq,
+         userCb, tryCatch, tryFinally, seq, action, hnr, hop, ds, sad, cur, hr, hh]
+       refine ⟨⟨by simp [uDisp, uSubDisp, sub], by simp⟩,
+         good_append c s _ k _ hg (by simp; rfl) (by simp [List.filter, Eff.isCb, Eff.isEmit, expect, hop, hh]) (by simp)⟩)
+    all_goals
+      (cases a <;> cases hr : c.subRaises s.d.cbs <;>
+       (simp [termStep, hTerminal, hCompleted, dTerminal, dDispose, rDispose_plain c hp', uSubDispose_eq,
+         userCb, tryCatch, tryFinally, seq, action, hnr, hop, ds, sad, cur, hr]
+        refine ⟨⟨by simp [uDisp, uSubDisp, sub], by simp⟩,
+         good_append c s _ k _ hg (by simp; rfl) (by simp [List.filter, Eff.isCb, Eff.isEmit, expect, hop]) (by simp)⟩))
+
+theorem dead_uDispose {α} (c : Cfg) (k : Nat) (s : St α) (hd : Dead s) (hg : Good c s k) :
+    Dead (uDispose s).1 ∧ Good c (uDispose s).1 k := by
+  rw [uDispose_eq]
+  exact ⟨⟨by simp [uDisp], hd.ds⟩, good_append c s _ k _ hg rfl (by simp) (by simp)⟩
+
+theorem ok_notify {α} (c : Cfg) (hp : Plain c) (q : Quiet c) (a : Bool) (k : Nat) (s : St α) (n : Notif α)
+    (h : Ok c a k s) : Ok c a k (uNotify c n s).1 := by
+  obtain ⟨hl | hd, hg⟩ := h
+  · have hus := hl.us
+    cases n with
+    | next v =>
+      simp only [uNotify, hus, Bool.false_eq_true, if_false]
+      obtain ⟨h1, h2⟩ := next_live c hp q a k s v hl hg
+      exact ⟨Or.inl h1, h2⟩
+    | error e =>
+      obtain ⟨h1, h2⟩ := term_live c hp q a k s (.error e) rfl hl hg
+      simp only [termStep] at h1 h2
+      simp only [uNotify, hus, Bool.false_eq_true, if_false, tryFinally]
+      rcases hx : hTerminal c (.error e) { s with u.stopped := true } with ⟨s2, x⟩
+      rw [hx] at h1 h2
+      obtain ⟨h3, h4⟩ := dead_uDispose c k s2 h1 h2
+      rcases hy : uDispose s2 with ⟨s3, _ | e3⟩ <;> rw [hy] at h3 h4 <;> exact ⟨Or.inr h3, h4⟩
+    | completed =>
+      obtain ⟨h1, h2⟩ := term_live c hp q a k s .completed rfl hl hg
+      simp only [termStep] at h1 h2
+      simp only [uNotify, hus, Bool.false_eq_true, if_false, tryFinally]
+      rcases hx : hTerminal c .completed { s with u.stopped := true } with ⟨s2, x⟩
+      rw [hx] at h1 h2
+      obtain ⟨h3, h4⟩ := dead_uDispose c k s2 h1 h2
+      rcases hy : uDispose s2 with ⟨s3, _ | e3⟩ <;> rw [hy] at h3 h4 <;> exact ⟨Or.inr h3, h4⟩
+  · rw [notify_dead c n s hd]; exact ⟨Or.inr hd, hg⟩
+
+theorem ok_escape {α} (c : Cfg) (a : Bool) (k : Nat) (s : St α) (e : Err) (h : Ok c a k s) :
+    Ok c a k { s with log := s.log ++ [.escape e] } := by
+  obtain ⟨hl | hd, hg⟩ := h
+  · exact ⟨Or.inl ⟨hl.us, hl.ds, hl.sad, hl.cur, hl.sub, hl.usad⟩,
+      good_append c s _ k _ hg rfl (by simp [List.filter, Eff.isCb, Eff.isEmit]) (by simp)⟩
+  · exact ⟨Or.inr ⟨hd.us, hd.ds⟩, good_append c s _ k _ hg rfl (by simp [List.filter, Eff.isCb, Eff.isEmit]) (by simp)⟩
+
+theorem ok_emitSync {α} (c : Cfg) (hp : Plain c) (q : Quiet c) (k : Nat) (prop : Bool) (ns : List (Notif α))
+    (s : St α) (h : Ok c false k s) : Ok c false k (emitSync c prop ns s).1 := by
+  induction ns generalizing s with
+  | nil => simpa [emitSync] using h
+  | cons n ns ih =>
+    have h1 := ok_notify c hp q false k s n h
+    simp only [emitSync]
+    rcases hn : uNotify c n s with ⟨s', _ | e⟩
+    · rw [hn] at h1; exact ih _ h1
+    · rw [hn] at h1
+      cases prop
+      · exact ih _ (ok_escape c false k _ e h1)
+      · simpa using h1
+
+/-- after `source.subscribe(...)`: still `Ok`, and if it raised both observers are stopped -/
+theorem ok_srcSubscribe {α} (c : Cfg) (hp : Plain c) (q : Quiet c) (k : Nat) (sp : SyncPhase α) (s : St α)
+    (h : Ok c false k s) :
+    Ok c false k (srcSubscribe c sp s).1 ∧ (∀ e, (srcSubscribe c sp s).2 = some e → Dead (srcSubscribe c sp s).1) := by
+  have h1 := ok_emitSync c hp q k sp.propagate sp.emits s h
+  simp only [srcSubscribe]
+  have body : ∀ (e : Err) (s1 : St α), Ok c false k s1 →
+      Ok c false k (if s1.u.stopped = true then (s1, some e) else hError c e { s1 with u.stopped := true }).1 ∧
+      Dead (if s1.u.stopped = true then (s1, some e) else hError c e { s1 with u.stopped := true }).1 := by
+    intro e s1 h1
+    obtain ⟨hl | hd, hg⟩ := h1
+    · obtain ⟨h2, h3⟩ := term_live c hp q false k s1 (.error e) rfl hl hg
+      simp only [termStep, hTerminal] at h2 h3
+      simp only [hl.us, Bool.false_eq_true, if_false]
+      exact ⟨⟨Or.inr h2, h3⟩, h2⟩
+    · simp only [hd.us, if_true]; exact ⟨⟨Or.inr hd, hg⟩, hd⟩
+  rcases he : emitSync c sp.propagate sp.emits s with ⟨s1, _ | e⟩
+  · rw [he] at h1
+    simp only
+    cases hx : sp.exn with
+    | some e => exact ⟨(body e s1 h1).1, fun _ _ => (body e s1 h1).2⟩
+    | none =>
+      simp only
+      obtain ⟨hl | hd, hg⟩ := h1
+      · rw [if_neg (by have := hl.usad; simp_all)]
+        exact ⟨⟨Or.inl ⟨hl.us, hl.ds, hl.sad, hl.cur, hl.sub, hl.usad⟩, ⟨hg.shp, hg.cnt, hg.hd⟩⟩, fun _ h => by cases h⟩
+      · split
+        · exact ⟨⟨Or.inr ⟨hd.us, hd.ds⟩, good_append c s1 _ k _ hg rfl (by simp [List.filter, Eff.isCb, Eff.isEmit]) (by simp)⟩,
+            fun _ h => by cases h⟩
+        · exact ⟨⟨Or.inr ⟨hd.us, hd.ds⟩, ⟨hg.shp, hg.cnt, hg.hd⟩⟩, fun _ h => by cases h⟩
+  · rw [he] at h1; exact ⟨(body e s1 h1).1, fun _ _ => (body e s1 h1).2⟩
+
+theorem dead_uSubDispose {α} (c : Cfg) (k : Nat) (s : St α) (hd : s.d.stopped = true) (hg : Good c s k)
+    (hu : s.u.stopped = true ∨ s.u.subDisposed = false) :
+    Dead (uSubDispose s).1 ∧ Good c (uSubDispose s).1 k ∧ (uSubDispose s).2 = none := by
+  rw [uSubDispose_eq]
+  refine ⟨⟨?_, hd⟩, good_append c s _ k _ hg rfl (by simp) (by simp), rfl⟩
+  simp only [uSubDisp]
+  split
+  · rcases hu with h | h
+    · exact h
+    · simp_all
+  · simp [uDisp]
+
+def kOf (c : Cfg) : Nat := if c.oper = .doOnSubscribe then 1 else 0
+
+theorem ok_init {α} (c : Cfg) : Ok c false 0 ({} : St α) :=
+  ⟨Or.inl ⟨rfl, rfl, rfl, rfl, rfl, rfl⟩, ⟨by simp [cbShape], rfl, fun h => by cases h⟩⟩
+
+theorem ok_opSubscribe {α} (c : Cfg) (hp : Plain c) (q : Quiet c) (sp : SyncPhase α) :
+    Ok c false (kOf c) (opSubscribe c sp ({} : St α)).1 ∧
+    (∀ e, (opSubscribe c sp ({} : St α)).2 = some e → Dead (opSubscribe c sp ({} : St α)).1) := by
+  rcases hp with hop | hop | hop | hop | hop
+  case inr.inr.inr.inr =>
+    have h0 : Ok c false 1 ({ log := [.act .subscribe none false], o := { acts := 1 } } : St α) :=
+      ⟨Or.inl ⟨rfl, rfl, rfl, rfl, rfl, rfl⟩, ⟨by simp [cbShape, List.filter, Eff.isCb, Eff.isEmit], by simp, fun _ => rfl⟩⟩
+    have := ok_srcSubscribe c (Or.inr (Or.inr (Or.inr (Or.inr hop)))) q 1 sp _ h0
+    simpa [opSubscribe, hop, seq, action, q.nr, kOf] using this
+  all_goals
+    (have := ok_srcSubscribe c (by simp [Plain, hop]) q 0 sp _ (ok_init c)
+     simpa [opSubscribe, hop, kOf] using this)
+
+theorem ok_subscribePhase {α} (c : Cfg) (hp : Plain c) (q : Quiet c) (sp : SyncPhase α) :
+    Ok c true (kOf c) (subscribePhase c sp : St α) := by
+  obtain ⟨h1, h2⟩ := ok_opSubscribe (α := α) c hp q sp
+  simp only [subscribePhase, outerSubscribe]
+  rcases ho : opSubscribe c sp ({} : St α) with ⟨s1, _ | e⟩
+  · rw [ho] at h1
+    replace h1 : Ok c false (kOf c) s1 := h1
+    obtain ⟨hl | hd, hg⟩ := h1
+    · have hsad := hl.sad
+      simp only [hsad, Bool.false_eq_true, if_false]
+      exact ⟨Or.inl ⟨by simpa using hl.us, by simpa using hl.ds, by simp, by simp, by simpa using hl.sub,
+        by simpa using hl.usad⟩, ⟨by simpa using hg.shp, by simpa using hg.cnt, by simpa using hg.hd⟩⟩
+    · cases hsad : s1.d.sad
+      · simp only [hsad, Bool.false_eq_true, if_false]
+        exact ⟨Or.inr ⟨by simpa using hd.us, by simpa using hd.ds⟩,
+          ⟨by simpa using hg.shp, by simpa using hg.cnt, by simpa using hg.hd⟩⟩
+      · simp only [hsad, if_true, rDispose_plain c hp]
+        obtain ⟨h3, h4, h5⟩ := dead_uSubDispose c _ s1 hd.ds hg (Or.inl hd.us)
+        rcases hx : uSubDispose s1 with ⟨s2, _ | e⟩ <;> rw [hx] at h3 h4 h5
+        · replace h3 : Dead s2 := h3
+          replace h4 : Good c s2 (kOf c) := h4
+          exact ⟨Or.inr ⟨by simpa using h3.us, by simpa using h3.ds⟩,
+            ⟨by simpa using h4.shp, by simpa using h4.cnt, by simpa using h4.hd⟩⟩
+        · cases h5
+  · rw [ho] at h1 h2
+    have hd : Dead s1 := h2 e rfl
+    replace h1 : Ok c false (kOf c) s1 := h1
+    simp only [hd.ds, if_true]
+    exact ok_escape c true _ s1 e ⟨Or.inr hd, h1.2⟩
+
+theorem ok_step {α} (c : Cfg) (hp : Plain c) (q : Quiet c) (k : Nat) (s : St α) (e : Ev α)
+    (h : Ok c true k s) : Ok c true k (step c s e) := by
+  have swl : ∀ (p : P α) (s : St α), Ok c true k (p s).1 → Ok c true k (swallow p s) := by
+    intro p s h
+    simp only [swallow]
+    rcases hx : p s with ⟨s1, _ | e⟩ <;> rw [hx] at h
+    · exact h
+    · exact ok_escape c true k s1 e h
+  cases e with
+  | src n =>
+    simp only [step]
+    split
+    · exact swl _ _ (ok_notify c hp q true k s n h)
+    · exact h
+  | dispose =>
+    simp only [step]
+    apply swl
+    simp only [handleDispose]
+    split
+    · exact h
+    · obtain ⟨hl | hd, hg⟩ := h
+      · simp only [dDispose, hl.sad, hl.cur, Bool.false_eq_true, if_false, if_true, rDispose_plain c hp]
+        obtain ⟨h3, h4, h5⟩ := dead_uSubDispose c k
+          { s with d := { s.d with retDisposed := true, stopped := true, sad := true, cur := false } } rfl
+          ⟨hg.shp, hg.cnt, hg.hd⟩ (Or.inr hl.sub)
+        exact ⟨Or.inr h3, h4⟩
+      · simp only [dDispose]
+        cases hsad : s.d.sad
+        · cases hcur : s.d.cur
+          · simp only [hsad, hcur, Bool.false_eq_true, if_false]
+            exact ⟨Or.inr ⟨hd.us, rfl⟩, ⟨hg.shp, hg.cnt, hg.hd⟩⟩
+          · simp only [hsad, hcur, Bool.false_eq_true, if_false, if_true, rDispose_plain c hp]
+            obtain ⟨h3, h4, h5⟩ := dead_uSubDispose c k
+              { s with d := { s.d with retDisposed := true, stopped := true, sad := true, cur := false } } rfl
+              ⟨hg.shp, hg.cnt, hg.hd⟩ (Or.inl hd.us)
+            exact ⟨Or.inr h3, h4⟩
+        · simp only [hsad, if_true]
+          exact ⟨Or.inr ⟨hd.us, rfl⟩, ⟨hg.shp, hg.cnt, hg.hd⟩⟩
+
+theorem ok_run {α} (c : Cfg) (hp : Plain c) (q : Quiet c) (sp : SyncPhase α) (evs : List (Ev α)) :
+    Ok c true (kOf c) (run c sp evs) := by
+  simp only [run]
+  have h0 := ok_subscribePhase (α := α) c hp q sp
+  generalize subscribePhase c sp = s at h0
+  induction evs generalizing s with
+  | nil => exact h0
+  | cons e es ih => exact ih _ (ok_step c hp q _ s e h0)
+
+
+
+/-! ## do_on_dispose (the action does not raise) -/
+
+/-- invariant of `do_on_dispose` at event boundaries once `subscribe` has returned a handle -/
+structure DodInv {α} (s : St α) (b : Bool) : Prop where
+  cnt : actCount .dispose s.log = s.o.rDisposed.toNat
+  sad : s.d.sad = s.o.rDisposed
+  cur : s.d.cur = !s.d.sad
+  dst : s.d.stopped = s.d.sad
+  ust : s.u.stopped = true → s.d.sad = true
+  trg : s.d.sad = (hasTerm s.log || s.d.retDisposed)
+  hdl : s.d.handle = true
+  ret : s.d.retDisposed = b
+  ord : noEmitAfterAct .dispose s.log = true
+
+theorem dod_dispose_inv {α} (c : Cfg) (hc : c.oper = .doOnDispose) (hnr : ∀ k, c.actRaises k = false)
+    (s : St α) (b : Bool) (h : DodInv s b) : DodInv (step c s .dispose) true := by
+  obtain ⟨cnt, sad, cur, dst, ust, trg, hdl, ret, ord⟩ := h
+  cases hrd : s.d.retDisposed
+  · cases hsad : s.d.sad <;>
+    (rw [hsad] at cur dst sad
+     have ha := any_isAct_of_count_zero .dispose s.log
+     simp [step, swallow, handleDispose, dDispose, rDispose_ondispose c hc hnr, hdl, hrd, hsad, cur, ← sad]
+     constructor <;> simp_all [noEmitAfterAct_append, noEmitAfterAct])
+  · simp [step, swallow, handleDispose, hrd]
+    exact ⟨cnt, sad, cur, dst, ust, trg, hdl, hrd, ord⟩
+
+theorem dod_src_inv {α} (c : Cfg) (hc : c.oper = .doOnDispose) (hnr : ∀ k, c.actRaises k = false)
+    (s : St α) (n : Notif α) (b : Bool) (h : DodInv s b) : DodInv (step c s (.src n)) b := by
+  obtain ⟨cnt, sad, cur, dst, ust, trg, hdl, ret, ord⟩ := h
+  cases hl : s.u.live
+  · simp [step, hl]; exact ⟨cnt, sad, cur, dst, ust, trg, hdl, ret, ord⟩
+  cases hus : s.u.stopped
+  · cases hds : s.d.stopped <;> cases hr : c.subRaises s.d.cbs <;> cases n <;>
+    (have hsad := dst.symm; rw [hds] at hsad; rw [hsad] at cur sad
+     have ha := any_isAct_of_count_zero .dispose s.log
+     simp [step, swallow, uNotify, hNext, hTerminal, hError, hCompleted, dNext, dTerminal, userCb, tryFinally,
+      hc, dDispose, rDispose_ondispose c hc hnr, uDispose_eq, hus, hds, hr, hsad, cur, hl, ← sad]
+     constructor <;> simp_all [uDisp, noEmitAfterAct_append, noEmitAfterAct])
+  · simp [step, swallow, uNotify, hus, hl]; exact ⟨cnt, sad, cur, dst, ust, trg, hdl, ret, ord⟩
+
+theorem dod_run_inv {α} (c : Cfg) (hc : c.oper = .doOnDispose) (hnr : ∀ k, c.actRaises k = false)
+    (evs : List (Ev α)) (s : St α) (b : Bool)
+    (h : DodInv s b) : DodInv (runFrom c s evs) (b || hasDispose evs) := by
+  induction evs generalizing s b with
+  | nil => simpa [runFrom, hasDispose] using h
+  | cons e es ih =>
+    cases e with
+    | src n =>
+      have := ih _ _ (dod_src_inv c hc hnr s n b h)
+      simpa [runFrom, hasDispose] using this
+    | dispose =>
+      have := ih _ _ (dod_dispose_inv c hc hnr s b h)
+      simpa [runFrom, hasDispose] using this
+
+theorem dod_subscribePhase {α} (c : Cfg) (hc : c.oper = .doOnDispose) (hnr : ∀ k, c.actRaises k = false)
+    (sp : SyncPhase α) :
+    DodInv (subscribePhase c sp : St α) false ∨
+    (Frozen (subscribePhase c sp : St α) ∧ actCount .dispose (subscribePhase c sp : St α).log = 0) := by
+  have h := using_srcSubscribe (α := α) c (Or.inr (Or.inr hc)) sp {} usingSync_init
+  simp only [subscribePhase, outerSubscribe, opSubscribe, hc]
+  rcases ho : srcSubscribe c sp ({} : St α) with ⟨s1, _ | e⟩
+  · rw [ho] at h
+    obtain ⟨cur, rd, ⟨-, -, cnt⟩, dst, trg, ust, ret, hdl, exn, nrm⟩ := h
+    simp only at cur rd cnt dst trg ust ret hdl nrm
+    have ha := any_isAct_of_count_zero .dispose s1.log cnt
+    have hb := noEmitAfterAct_of_count_zero .dispose s1.log cnt
+    left
+    cases hsad : s1.d.sad
+    · simp only [hsad]
+      constructor <;> simp_all
+    · simp only [hsad, rDispose_ondispose c hc hnr, rd]
+      constructor <;> simp_all [noEmitAfterAct_append, noEmitAfterAct]
+  · rw [ho] at h
+    obtain ⟨cur, rd, ⟨-, -, cnt⟩, dst, trg, ust, ret, hdl, exn, nrm⟩ := h
+    obtain ⟨hst, hlive⟩ := exn e rfl
+    simp only at cur rd cnt dst trg ust ret hdl hst hlive
+    right
+    simp only [hst]
+    exact ⟨⟨by simp_all, by simp_all⟩, by simp_all⟩
+
 end WinFin
